@@ -7,10 +7,13 @@
 //!   h_decode worker ...                      child: executes a range of cases
 mod alloc_track;
 mod cases;
+mod families;
 mod fieldw;
 mod parent;
 mod seeds;
+mod serve;
 mod steps;
+mod stratum;
 mod targets;
 mod worker;
 
@@ -45,7 +48,8 @@ fn main() {
 		Some("count") => {
 			let plans = read_ndjson(args.req("plans"));
 			let space = cases::Space::build(args.u64("seed", 1), args.get("tier") == Some("thorough"), &plans);
-			println!("{}", json!({"cases": space.descs.len(), "ops": space.ops.len(), "seeds": space.seeds.len()}));
+			let bigs: Vec<usize> = space.descs.iter().enumerate().filter(|(_, d)| matches!(d, cases::Desc::Big { .. })).map(|(i, _)| i).collect();
+			println!("{}", json!({"cases": space.descs.len(), "ops": space.ops.len(), "seeds": space.seeds.len(), "big_first": bigs.first(), "big_n": bigs.len()}));
 			0
 		}
 		_ => {
@@ -63,13 +67,27 @@ fn layouts(args: &Args) -> i32 {
 	for t in targets::targets() {
 		w.put(&json!({"t": "target", "dec": t.name, "stream": t.kind == targets::TKind::Stream, "steps": t.steps}));
 	}
+	// families of "many valid items" encodings: the specification chooses the counts (BigCounts)
+	for f in families::FAMILIES {
+		let cts: Vec<&str> = f.cts.iter().map(|c| c.name()).collect();
+		let lo = if f.kind == "height" { families::lo_height(f.name) } else { 0 };
+		w.put(&json!({"t": "family", "fam": f.name, "kind": f.kind, "unit": f.unit, "limit": f.limit, "lo": lo, "cts": cts}));
+	}
 	for (i, (ct, s)) in seeds.iter().enumerate() {
 		let kinds: Vec<&str> = s.fields.iter().map(|f| f.kind).collect();
 		let widths: Vec<usize> = s.fields.iter().map(|f| f.w).collect();
 		// 1-based field indices (TLA+ sequences) of the segment identifier and of the segment proof's hash count; 0 = none
 		let (ih, ii) = s.ident.map(|(h, i)| (h + 1, i + 1)).unwrap_or((0, 0));
+		// repeated groups [count field, first / last field of the first item, last field of the group]; the first block
+		// header (version, height, edge_bits fields); the type of a codec seed made of exactly one frame (-1: none)
+		let grp: Vec<Vec<usize>> = s.groups.iter().map(|(c, a, z, e)| vec![c + 1, a + 1, z + 1, e + 1, (*a..=*z).map(|i| s.fields[i].w).sum()]).collect();
+		let (hv, hh, he) = s.hdr.map(|(v, h, e)| (v + 1, h + 1, e + 1)).unwrap_or((0, 0, 0));
+		let single = s.target == "Codec::read" && s.bytes.len() >= 11 && s.fields.len() >= 4 && s.fields[3].kind == "u64"
+			&& seeds::fval(s, 3) as usize == s.bytes.len() - 11;
+		let fty: i64 = if single { s.bytes[2] as i64 } else { -1 };
 		w.put(&json!({"t": "layout", "id": i, "dec": s.target, "ct": ct.name(), "ver": s.ver, "label": s.label, "len": s.bytes.len(),
-			"kinds": kinds, "w": widths, "ih": ih, "ii": ii, "pf": s.proof.map(|j| j + 1).unwrap_or(0)}));
+			"kinds": kinds, "w": widths, "ih": ih, "ii": ii, "pf": s.proof.map(|j| j + 1).unwrap_or(0),
+			"grp": grp, "hv": hv, "hh": hh, "he": he, "fty": fty}));
 	}
 	w.finish();
 	0
